@@ -97,6 +97,31 @@ pub(crate) fn read_chunk_meta<T: NumberLike>(reader: &mut BitReader, flags: &Fla
   Ok(Some(metadata))
 }
 
+// The iterator's step when it is between chunks: the next chunk's metadata or
+// the footer, or nothing if there is not enough data yet.
+fn next_chunk_meta_item<T: NumberLike>(
+  reader: &mut BitReader,
+  state: &mut State<T>,
+) -> QCompressResult<Option<DecompressedItem<T>>> {
+  match read_chunk_meta::<T>(reader, state.flags.as_ref().unwrap()) {
+    Ok(Some(meta)) => {
+      match ChunkBodyDecompressor::new(&meta) {
+        Ok(cbd) => {
+          state.chunk_body_decompressor = Some(cbd);
+          Ok(Some(DecompressedItem::ChunkMetadata(meta)))
+        }
+        Err(e) => Err(e)
+      }
+    },
+    Ok(None) => {
+      state.terminated = true;
+      Ok(Some(DecompressedItem::Footer))
+    },
+    Err(e) if matches!(e.kind, ErrorKind::InsufficientData) => Ok(None),
+    Err(e) => Err(e),
+  }
+}
+
 /// Converts compressed bytes into [`Flags`], [`ChunkMetadata`],
 /// and vectors of numbers.
 ///
@@ -341,30 +366,24 @@ impl<T: NumberLike> Iterator for &mut Decompressor<T> {
           Err(e) => Err(e),
         }
       } else if state.chunk_body_decompressor.is_none() {
-        match read_chunk_meta::<T>(reader, state.flags.as_ref().unwrap()) {
-          Ok(Some(meta)) => {
-            match ChunkBodyDecompressor::new(&meta) {
-              Ok(cbd) => {
-                state.chunk_body_decompressor = Some(cbd);
-                Ok(Some(DecompressedItem::ChunkMetadata(meta)))
-              }
-              Err(e) => Err(e)
-            }
-          },
-          Ok(None) => {
-            state.terminated = true;
-            Ok(Some(DecompressedItem::Footer))
-          },
-          Err(e) if matches!(e.kind, ErrorKind::InsufficientData) => Ok(None),
-          Err(e) => Err(e),
-        }
+        next_chunk_meta_item(reader, state)
       } else {
         let nums_result = state.chunk_body_decompressor.as_mut()
           .unwrap()
           .decompress_next_batch(reader, config.numbers_limit_per_item, false);
         match nums_result {
           Ok(numbers) => {
-            if numbers.nums.is_empty() {
+            if numbers.nums.is_empty() && numbers.finished_chunk_body {
+              // A chunk holding no numbers (old versions wrote one for empty
+              // data) has nothing to yield, so move on to whatever follows it.
+              // If that is not available yet, stay in this chunk.
+              let cbd = state.chunk_body_decompressor.take();
+              let res = next_chunk_meta_item(reader, state);
+              if !matches!(res, Ok(Some(_))) {
+                state.chunk_body_decompressor = cbd;
+              }
+              res
+            } else if numbers.nums.is_empty() {
               Ok(None)
             } else {
               if numbers.finished_chunk_body {
